@@ -277,6 +277,65 @@ def decompresser_buffer_discipline(ctx, chk, rule):
         chk.ok(rule, rc.qualname, f'{len(inflates)} decompress() call(s)', detail=f'all inflated bytes are appended to self.{buf}; every return hands out the head of the buffer, b\'\' or a join of sized reads')
 
 
+def _remaining_like(e, f):
+    """e is (or is a local bound once from) an expression over the object's length and position attributes: the bytes that remain."""
+    if isinstance(e, ast.Name):
+        asg = [n for n in walk_local(f.node) if isinstance(n, ast.Assign) and len(n.targets) == 1 and isinstance(n.targets[0], ast.Name) and n.targets[0].id == e.id]
+        return len(asg) == 1 and _remaining_like(asg[0].value, f)
+    ns = names_in(e)
+    return isinstance(e, ast.BinOp) and isinstance(e.op, ast.Sub) and any('length' in x for x in ns) and any('pos' in x for x in ns)
+
+
+def read_size_exactness(ctx, chk, rule):
+    prog = ctx.prog
+    names = ['utils:PackedObjectReader.read', ZL + '.read', ZL + '._read_compressed', 'utils:LazyLooseStream.read', 'utils:CallbackStreamWrapper.read', 'utils:ZeroStream.read']
+    for q in names:
+        chk.require(prog.has_fn(q), f'{q} not found')
+        f = prog.fn(q)
+        chk.require(len(f.params) >= 1, f'{q}: no size parameter')
+        p = f.params[0]
+        bad = None
+        for n in walk_local(f.node):
+            if isinstance(n, ast.Name) and n.id == p and isinstance(n.ctx, (ast.Store, ast.Del)):
+                st = n
+                while not isinstance(st, ast.stmt):
+                    st = st._parent
+                val = getattr(st, 'value', None)
+                if not (isinstance(st, ast.Assign) and val is not None and (_remaining_like(val, f) or (isinstance(val, ast.Call) and norm(val.func) == 'min' and
+                                                                                                            all(norm(a) == p or _remaining_like(a, f) for a in val.args)))):
+                    bad = (n, f'the requested size `{p}` is re-bound to `{norm(val) if val is not None else "?"}`, which is not the bytes remaining in the object: read({p}) then returns fewer bytes than asked for '
+                           'although the object has not ended (io.BytesIO and the other storage forms of the same object return exactly n)')
+            if isinstance(n, ast.Call) and norm(n.func) in ('min',) and any(norm(a) == p for a in n.args):
+                others = [a for a in n.args if norm(a) != p]
+                if not all(_remaining_like(a, f) for a in others):
+                    bad = (n, f'`{norm(n)}` caps the requested size by something other than the bytes remaining in the object: a read of more than that returns short although the object has not ended')
+            if isinstance(n, ast.Call) and isinstance(n.func, ast.Attribute) and n.func.attr in ('read', '_read_compressed') and n.args and p in names_in(n.args[0]) and norm(n.args[0]) != p \
+                    and not (isinstance(n.args[0], ast.Call) and norm(n.args[0].func) == 'min'):
+                bad = (n, f'the size passed on to the underlying read, `{norm(n.args[0])}`, is not the requested `{p}`')
+        if q.endswith('_read_compressed'):
+            loops = [n for n in walk_local(f.node) if isinstance(n, ast.While) and isinstance(n.test, ast.Compare) and len(n.test.ops) == 1 and isinstance(n.test.ops[0], ast.Lt)
+                     and norm(n.test.comparators[0]) == p and norm(n.test.left).startswith('len(')]
+            if len(loops) != 1:
+                bad = bad or (f.node, f'the inflate loop `while len(buffer) < {p}` was not found: nothing makes the call go on until {p} bytes are available')
+            else:
+                for b in ast.walk(loops[0]):
+                    if isinstance(b, ast.Break):
+                        guards = [a for a in _ancestors_until(b, loops[0]) if isinstance(a, ast.If)]
+                        if not any('eof' in norm(g.test) for g in guards):
+                            bad = bad or (b, 'the inflate loop is left by a `break` that is not guarded by the end of the compressed stream: a short read although data remains')
+        if bad:
+            chk.bad(rule, q, norm(bad[0])[:90] if not isinstance(bad[0], ast.FunctionDef) else q, bad[1], where=f'{f.module.relpath}:{getattr(bad[0], "lineno", f.lineno)}')
+        else:
+            chk.ok(rule, q, f'size parameter `{p}`', detail='never re-bound; min() only with the remaining bytes; delegated unchanged; inflate loop runs until enough bytes or end of stream')
+
+
+def _ancestors_until(n, stop):
+    n = getattr(n, '_parent', None)
+    while n is not None and n is not stop:
+        yield n
+        n = getattr(n, '_parent', None)
+
+
 def last_assignment_in(f, name, before):
     from ..effects import last_assignment
     return last_assignment(name, f, before)
@@ -615,6 +674,14 @@ def run(ctx, host=None):
         chk.bad(R8, si.qualname, 'backward seek', 'a target behind the current position no longer rewinds to 0 before the forward loop: the seek silently stays at the old position', where=f'{si.module.relpath}:{si.lineno}')
 
     decompresser_buffer_discipline(ctx, chk, R8)
+
+    R10 = chk.rule('C07.R10', 'read(n) hands out n bytes unless the object ends first: the requested size is passed on unchanged and is only ever capped by the bytes remaining in the object', 5)
+    read_size_exactness(ctx, chk, R10)
+
+    R11 = chk.rule('C07.R11', 'the re-loosened copy a stream switches to is complete whenever it exists: files under loose/ appear only by atomic rename of a finished sandbox file', 1)
+    from .common import loose_write_ownership
+    loose_write_ownership(ctx, chk, R11, 'the lazy loose stream (and every seek that falls back to it) trusts any file it finds under the key: a copy that is still being written, or was left '
+                          'half-written by an interruption, is then served as the object -- truncated reads, wrong seek(0, 2)')
 
     R6 = chk.rule('C07.R6', 'decompresser rewind (re-inflate from 0) resets every piece of decompression state that __init__ initialises', 1)
     rewind_reset(ctx, chk, R6)
